@@ -46,16 +46,24 @@ CONSTANTS = {
          r"else if pattern\.starts_with\('%'\)\s*&&\s*!contains_like_pattern\(&pattern\[(\d+)\.\.\]\)\s*\{\s*return Ok\(Self::IEndsWithAscii", "int"),
         # `byte_substring`: which offset of the pair each bound is computed from / clamped to, and that
         # every computed bound goes through `check_char_boundary`
-        # (two accepted spellings of the positive-start bound: `(pair[0] + start).min(pair[1])` and the
-        #  overflow-safe `pair[0].checked_add(&start).map_or(pair[1], |o| o.min(pair[1]))`)
         ("SUBSTR_POS_BASE", S,
-         r"Ordering::Greater => check_char_boundary\(\s*\(?pair\[(\d+)\](?: \+ start\)\.min\(pair\[1\]\)|\s*\.checked_add\(&start\)\s*\.map_or\(pair\[1\], \|o\| o\.min\(pair\[1\]\)\),\s*)\)\?,", "int"),
+         r"Ordering::Greater => check_char_boundary\(\s*pair\[(\d+)\]\s*\.checked_add\(&start\)\s*\.map_or\(pair\[1\], \|o\| o\.min\(pair\[1\]\)\),\s*\)\?,", "int"),
         ("SUBSTR_POS_CLAMP", S,
-         r"Ordering::Greater => check_char_boundary\(\s*\(?pair\[0\](?: \+ start\)|\s*\.checked_add\(&start\)\s*\.map_or\(pair\[1\], \|o\| o)\.min\(pair\[(\d+)\]\)\)?,?\s*\)\?,\s*Ordering::Equal => pair\[0\],", "int"),
+         r"Ordering::Greater => check_char_boundary\(\s*pair\[0\]\s*\.checked_add\(&start\)\s*\.map_or\(pair\[1\], \|o\| o\.min\(pair\[(\d+)\]\)\),\s*\)\?,\s*Ordering::Equal => pair\[0\],", "int"),
         ("SUBSTR_NEG_BASE", S,
          r"Ordering::Less => check_char_boundary\(\(pair\[(\d+)\] \+ start\)\.max\(pair\[0\]\)\)\?,", "int"),
         ("SUBSTR_END_CLAMP", S,
-         r"Some\(length\) => check_char_boundary\(\s*\(?length(?: \+ new_start\)|\s*\.checked_add\(&new_start\)\s*\.map_or\(pair\[1\], \|o\| o)\.min\(pair\[(\d+)\]\)\)?,?\s*\)\?,\s*None => pair\[1\],", "int"),
+         r"Some\(length\) => check_char_boundary\(\s*length\s*\.checked_add\(&new_start\)\s*\.map_or\(pair\[1\], \|o\| o\.min\(pair\[(\d+)\]\)\),\s*\)\?,\s*None => pair\[1\],", "int"),
+        # start / length are saturated (not wrapped) into the offset type before `byte_substring`
+        ("SUBSTR_SAT_I32", S,
+         r"DataType::Utf8 => byte_substring\(\s*array\.as_string::<i32>\(\),\s*start\.clamp\(i32::MIN as i64, i32::MAX as i64\) as i32,\s*length\.map\(\|e\| e\.min\(i(\d+)::MAX as u64\) as i32\),", "int"),
+        ("SUBSTR_SAT_I64", S,
+         r"DataType::LargeUtf8 => byte_substring\(\s*array\.as_string::<i64>\(\),\s*start,\s*length\.map\(\|e\| e\.min\(i(\d+)::MAX as u64\) as i64\),", "int"),
+        ("SUBSTR_SAT_VIEW", S,
+         r"Some\(length\) => new_start\s*\.saturating_add\(i64::try_from\(length\)\.unwrap_or\(i(\d+)::MAX\)\)\s*\.min\(original_length\),", "int"),
+        # null slots are skipped before any bound is computed (the slot index feeds the null test)
+        ("SUBSTR_NULL_SKIP", S,
+         r"\.enumerate\(\)\s*\.try_for_each\(\|\(idx, pair\)\| -> Result<\(\), ArrowError> \{.*?if nulls\.is_some_and\(\|n\| n\.is_null\(idx\)\) \{\s*new_starts_ends\.push\(\(pair\[0\], pair\[0\]\)\);\s*new_offsets\.push\(len_so_far\);\s*return Ok\(\(\)\);\s*\}\s*let new_start = match start\.cmp\(&zero\) \{\s*//[^\n]*\s*Ordering::Greater => check_char_boundary\(\s*pair\[0\]\s*\.checked_add\(&start\)\s*\.map_or\(pair\[(\d+)\]", "int"),
         # `utf8_bounds`: a negative start -k is the k-th character from the end
         ("SUBSTRC_NTH_BACK_ADJ", S,
          r"val\.char_indices\(\)\s*\.nth_back\(back - (\d+)\)\s*\.map_or\(0, \|\(offset, _\)\| offset\)", "int"),
